@@ -333,68 +333,70 @@ func runC10(c *Ctx) {
 			if nData == 0 && ow.T != "packetio.Buffer" {
 				o.Fail(rf.Pos(), "no blocking wait for data found in %s", fname(rf))
 			}
-			// Done-case blocks
-			var doneBlocks []*ssa.BasicBlock
-			for _, cm := range commsOfU(rf) {
-				if cm.Dir == types.RecvOnly && chanRole(cm.Chan) == doneRole && cm.Sel != nil {
-					cs, _ := caseBlocks(cm.Sel)
-					blk := cs[cm.Index]
-					if blk == nil && cm.Index == len(cm.Sel.States)-1 {
-						blk = lastCaseBlock(cm.Sel)
-					}
-					if blk == nil {
-						o.Fail(cm.Sel.Pos(), "cannot locate the Done() case block")
-						continue
-					}
-					doneBlocks = append(doneBlocks, blk)
-					// every return reachable from the case block before leaving it is a timeout error
-					for in := range reachU(blockStart(blk), isReturn) {
-						ret, ok := in.(*ssa.Return)
-						if !ok {
-							continue
+			// Done() branches and timeout-class errors, path by path (private helpers inlined, one loop iteration):
+			// a path on which a Done() case fired ends in a return of a timeout-class error; no other path does
+			paths, okP := enumIterPathsU(rf, 20000)
+			if !okP {
+				o.Undecide("the paths of %s could not be enumerated", fname(rf))
+				continue
+			}
+			reported, sited := map[ssa.Instruction]bool{}, map[ssa.Instruction]bool{}
+			failOnce := func(in ssa.Instruction, f string, a ...interface{}) {
+				if !reported[in] {
+					reported[in] = true
+					o.Fail(in.Pos(), f, a...)
+				}
+			}
+			nDoneRet := 0
+			for pi := range paths {
+				pth := &paths[pi]
+				var doneAt ssa.Instruction
+				for _, in := range pth.Instrs {
+					switch x := in.(type) {
+					case *ssa.Select:
+						if k := selCaseOnPath(pth, x); k >= 0 && k < len(x.States) && x.States[k].Dir == types.RecvOnly && chanRole(pth.resolve(x.States[k].Chan)) == doneRole {
+							doneAt = in
 						}
-						e := errorOperand(ret)
-						okT := false
-						for _, v := range unspill(e) {
-							if isTimeoutValue(p, v, 0) {
-								okT = true
-							}
-						}
-						o.Site(ret.Pos(), "Done() branch returns timeout-class error: %v", okT)
-						if !okT {
-							o.Fail(ret.Pos(), "the expired-deadline branch of %s does not return a timeout-class error", fname(rf))
+					case *ssa.UnOp:
+						if x.Op == token.ARROW && chanRole(pth.resolve(x.X)) == doneRole {
+							doneAt = in
 						}
 					}
 				}
-			}
-			// R3: timeout-class errors only in Done blocks
-			for _, in := range findInstrs(rf, isReturn) {
-				ret := in.(*ssa.Return)
+				ret, isRet := pth.last().(*ssa.Return)
+				if !isRet {
+					if doneAt != nil && pth.Loop {
+						failOnce(doneAt, "after the deadline fired %s goes on waiting instead of returning a timeout-class error", fname(rf))
+					}
+					continue
+				}
 				if rf.Recover != nil && ret.Block() == rf.Recover {
 					continue
 				}
 				e := errorOperand(ret)
-				if e == nil {
-					continue
-				}
 				isT := false
-				for _, v := range unspill(e) {
-					if isTimeoutValue(p, v, 0) {
-						isT = true
+				if e != nil {
+					for _, v := range unspill(e) {
+						if isTimeoutValue(p, pth.value(v), 0) {
+							isT = true
+						}
 					}
 				}
-				if !isT {
-					continue
-				}
-				inDone := false
-				for _, b := range doneBlocks {
-					if b == ret.Block() || b.Dominates(ret.Block()) {
-						inDone = true
+				if doneAt != nil {
+					nDoneRet++
+					if !sited[ret] {
+						sited[ret] = true
+						o.Site(ret.Pos(), "Done() branch returns timeout-class error: %v", isT)
 					}
+					if !isT {
+						failOnce(ret, "the expired-deadline branch of %s does not return a timeout-class error", fname(rf))
+					}
+				} else if isT {
+					failOnce(ret, "%s returns a timeout-class error on a path that did not receive from Done(): a spurious timeout", fname(rf))
 				}
-				if !inDone {
-					o.Fail(ret.Pos(), "%s returns a timeout-class error on a path that did not receive from Done(): a spurious timeout", fname(rf))
-				}
+			}
+			if nDoneRet == 0 {
+				o.Fail(rf.Pos(), "no path of %s returns through a Done() case", fname(rf))
 			}
 		}
 	}
